@@ -68,18 +68,22 @@ def run(task):
                 msg = judge(spec, recipe, backend, obs, opt)
                 if msg:
                     res["violations"].append({"msg": msg, "case": A.case_dict(spec, recipe, backend, KIND)})
-            # non-initial state: the continuum was aligned before (one unit less, another dissimilarity)
-            if len(res["state_set"]) % 5 == 0:
-                warm = {"k": "pos", "de": 0.35} if recipe["k"] != "pos" else {"k": "comb", "a": 1.0, "b": 1.0, "de": 1.0}
-                obs = A.eval_case(spec, recipe, "cbc" if A.cbc_available() else "glpk_noimport", KIND, warm=warm)
+            # non-initial states: a neighbouring continuum was aligned before (another dissimilarity), then turned
+            # into this one by add / remove / add_annotator / in-place merge (rotating)
+            k = len(res["state_set"])
+            if k % 3 == 0:
+                wrec = {"k": "pos", "de": 0.35} if recipe["k"] != "pos" else {"k": "comb", "a": 1.0, "b": 1.0, "de": 1.0}
+                warm = {"recipe": wrec, "how": A.WARM_KINDS[(k // 3) % len(A.WARM_KINDS)]}
+                be = "cbc" if A.cbc_available() else "glpk_noimport"
+                obs = A.eval_case(spec, recipe, be, KIND, warm=warm)
                 res["evaluations"] += 1
                 res["transitions"] += 2
                 if obs["ok"]:
                     res["traces"] += 1
-                    msg = judge(spec, recipe, "cbc", obs, opt)
+                    msg = judge(spec, recipe, be, obs, opt)
                     if msg:
-                        res["violations"].append({"msg": msg + " [continuum aligned before, then completed by add()]",
-                                                  "case": dict(A.case_dict(spec, recipe, "cbc", KIND), warm=warm)})
+                        res["violations"].append({"msg": msg + f" [continuum reached by {warm['how']}() after an earlier alignment]",
+                                                  "case": dict(A.case_dict(spec, recipe, be, KIND), warm=warm)})
             if len(res["samples"]) < 2 and opt < n * de * 0.9:
                 res["samples"].append({"continuum": spec, "dissimilarity": recipe, "exact_optimum": opt})
     return res
